@@ -163,7 +163,7 @@ SYMS = ["a", "b", " ", "\n", "　", "\t"]
 def strategy():
     alpha = "abcdefg" + WS + "   " + "世Ｅ́\x7f"  # words may contain double-width, combining and control characters: length counts characters
     run = st.tuples(gen.text(alpha, 0, 8), st.sampled_from(FMTS + [{"underline": True}, {"fg": 31, "bg": 44}])).map(list)
-    cols = st.lists(st.one_of(st.integers(1, 8), st.integers(1, 8), st.sampled_from([10, 16, 20, 40, 79, 80, 100])), min_size=1, max_size=3, unique=True)
+    cols = st.lists(st.one_of(st.integers(1, 8), st.integers(1, 8), st.sampled_from([10, 16, 20, 40, 79, 80, 100, 255, 256, 300])), min_size=1, max_size=3, unique=True)
     long_run = st.tuples(gen.text(alpha, 20, 160), st.sampled_from(FMTS)).map(list)
     return st.one_of(
         st.fixed_dictionaries({"desc": st.lists(run, min_size=0, max_size=5), "columns": cols, "build": gen.BUILDS, "obs": gen.OBS}),
@@ -171,6 +171,7 @@ def strategy():
         st.fixed_dictionaries({"str": gen.text(alpha, 0, 16), "columns": cols, "noise": st.booleans()}),
         st.fixed_dictionaries({"desc": st.lists(long_run, min_size=1, max_size=3), "columns": cols}),
         st.fixed_dictionaries({"str": gen.text(alpha, 40, 300), "columns": cols}),
+        st.fixed_dictionaries({"str": gen.text("abcdefg ", 300, 700), "columns": cols}),
     )
 
 
